@@ -24,6 +24,8 @@ func checkC17(c *Check, a *Anchors) {
 	c17PrefixLineComplete(c, a)
 	closerClosesEveryWriter(c, a)
 	writerSerialised(c, a)
+	groupDropsOnlyEmpty(c, a)
+	noDynamicFormat(c, a, "no-dynamic-format")
 }
 
 // writesTo: the ssa call writes to the value loaded from field `field` of type typ (as receiver of Write or as first argument of a writer helper).
